@@ -1,8 +1,160 @@
-/-! Line-protocol driver for component `Transport` (stub; the component owner replaces `run`). -/
+import PSO.Model.Transport
+
+/-! Line-protocol driver for component `transport` (model `PSO.Transport`, property C14).
+
+One request per line (blank-separated tokens), one JSON reply per line.  `I` = instance number (one model
+instance per real `TCPTransport` of the harness world).
+
+```
+init I self retry timeout now n a1 … an     TCPTransport(selfNode, otherNodes); self = -1: read-only self
+adv I dt                                    virtual clock += dt
+tick I n f1 … fn                            _onTick; connect() to addresses f1…fn fails immediately
+accept I                                    TcpServer accepted a socket
+pollok I c sf f                             READ/WRITE poll event, no error, no data; sf: the send() of the own
+                                            address fails; f: a connect() made inside fails immediately
+connerr I c f                               ERROR event / SO_ERROR / EOF / recv error
+recv I c f n m1 … mn                        READ event with n complete messages; m = A<a> | R | U<known><replyFail>
+                                            | H<k> | X<k>
+add I a                                     addNode
+drop I T a | drop I R k                     dropNode
+send I T a sf f | send I R k sf f           send
+```
+Reply: `{"out":[…outputs of this event…],"st":{…registry…}}`; lists are in model order, the harness sorts.
+-/
 namespace Driver.Transport
+open PSO.Transport
+
+def b01 (b : Bool) : String := if b then "1" else "0"
+
+def nodeJ : NodeId → String
+  | .tcp a => s!"[\"tcp\",{a}]"
+  | .ro k => s!"[\"ro\",{k}]"
+
+def msgJ : Msg → String
+  | .addr a => s!"[\"addr\",{a}]"
+  | .readonly => "[\"readonly\"]"
+  | .util k _ => s!"[\"util\",{b01 k}]"
+  | .hashable k => s!"[\"hash\",{k}]"
+  | .unhashable k => s!"[\"unhash\",{k}]"
+
+def outJ : Out → String
+  | .nodeConn (some n) => s!"[\"nodeConn\",{nodeJ n}]"
+  | .nodeConn none => "[\"nodeConn\",null]"
+  | .nodeDisc n => s!"[\"nodeDisc\",{nodeJ n}]"
+  | .roConn n => s!"[\"roConn\",{nodeJ n}]"
+  | .roDisc n => s!"[\"roDisc\",{nodeJ n}]"
+  | .deliver n m => s!"[\"deliver\",{nodeJ n},{msgJ m}]"
+  | .utility => "[\"utility\"]"
+  | .raised => "[\"raised\"]"
+  | .sendResult b => s!"[\"sendResult\",{b01 b}]"
+
+def listJ (l : List String) : String := "[" ++ ",".intercalate l ++ "]"
+
+def stateCode : CState → Nat
+  | .disconnected => 0
+  | .connecting => 1
+  | .connected => 2
+
+def cbJ : MsgCb → String
+  | .handshake => "null"
+  | .deliver n => nodeJ n
+
+def connsJ (l : List Conn) : String :=
+  let rec go (i : Nat) : List Conn → List String
+    | [] => []
+    | k :: r => s!"[{i},{stateCode k.state},{k.lastRead},{b01 k.dialled},{cbJ k.cb}]" :: go (i + 1) r
+  listJ (go 0 l)
+
+def stJ (s : St) : String :=
+  "{" ++ ",".intercalate [
+    s!"\"nodes\":{listJ (s.nodes.map toString)}",
+    s!"\"ro\":{listJ (s.roNodes.map toString)}",
+    s!"\"roCounter\":{s.roCounter}",
+    s!"\"reg\":{listJ (s.reg.map fun (n, c) => s!"[{nodeJ n},{c}]")}",
+    s!"\"unknown\":{listJ (s.unknown.map toString)}",
+    s!"\"last\":{listJ (s.lastAttempt.map fun (a, t) => s!"[{a},{t}]")}",
+    s!"\"conns\":{connsJ s.conns}",
+    s!"\"view\":{listJ (s.view.map nodeJ)}",
+    s!"\"now\":{s.now}"] ++ "}"
+
+def parseMsg (t : String) : Option Msg :=
+  match t.toList with
+  | 'A' :: r => (String.ofList r).toNat?.map Msg.addr
+  | ['R'] => some .readonly
+  | ['U', k, f] => some (.util (k == '1') (f == '1'))
+  | 'H' :: r => (String.ofList r).toNat?.map Msg.hashable
+  | 'X' :: r => (String.ofList r).toNat?.map Msg.unhashable
+  | _ => none
+
+def parseNode : String → Nat → Option NodeId
+  | "T", a => some (.tcp a)
+  | "R", k => some (.ro k)
+  | _, _ => none
+
+/-- Parse an event from the tokens after the instance number. -/
+def parseEvent (op : String) (args : List String) : Option Event := do
+  match op, args with
+  | "adv", [dt] => pure (.advance (← dt.toNat?))
+  | "tick", n :: fs =>
+    let n ← n.toNat?
+    if fs.length ≠ n then none else
+    pure (.tick (← fs.mapM String.toNat?))
+  | "accept", [] => pure .accept
+  | "pollok", [c, sf, f] => pure (.pollOk (← c.toNat?) (sf == "1") (f == "1"))
+  | "connerr", [c, f] => pure (.connErr (← c.toNat?) (f == "1"))
+  | "recv", c :: f :: n :: ms =>
+    let n ← n.toNat?
+    if ms.length ≠ n then none else
+    pure (.recv (← c.toNat?) (← ms.mapM parseMsg) (f == "1"))
+  | "add", [a] => pure (.addNode (← a.toNat?))
+  | "drop", [k, a] => pure (.dropNode (← parseNode k (← a.toNat?)))
+  | "send", [k, a, sf, f] => pure (.send (← parseNode k (← a.toNat?)) (sf == "1") (f == "1"))
+  | _, _ => none
+
+abbrev World := List (Nat × St)
+
+def getInst (w : World) (i : Nat) : Option St := (w.find? (·.1 == i)).map (·.2)
+def setInst (w : World) (i : Nat) (s : St) : World := (i, s) :: w.filter (·.1 != i)
+
+def handle (w : World) (line : String) : World × String :=
+  let ws := (line.splitOn " ").filter (· ≠ "")
+  match ws with
+  | "init" :: i :: self :: retry :: timeout :: now :: n :: others =>
+    match i.toNat?, retry.toNat?, timeout.toNat?, now.toNat?, n.toNat?, others.mapM String.toNat? with
+    | some i, some r, some t, some nw, some n, some os =>
+      if os.length ≠ n then (w, "{\"error\":\"init arity\"}") else
+      let s := init (if self == "-1" then none else self.toNat?) r t nw os
+      (setInst w i s, "{\"out\":[],\"st\":" ++ stJ s ++ "}")
+    | _, _, _, _, _, _ => (w, "{\"error\":\"init parse\"}")
+  | op :: i :: args =>
+    match i.toNat? with
+    | none => (w, "{\"error\":\"instance\"}")
+    | some i =>
+      match getInst w i, parseEvent op args with
+      | some s, some e =>
+        let s' := step s e
+        let outs := (s'.log.drop s.log.length).map outJ
+        -- the log is only needed as a delta here; keep it short so long runs stay linear
+        let s'' := { s' with log := [] }
+        (setInst w i s'', "{\"out\":" ++ listJ outs ++ ",\"st\":" ++ stJ s'' ++ "}")
+      | none, _ => (w, "{\"error\":\"no such instance\"}")
+      | _, none => (w, "{\"error\":\"parse: " ++ op ++ "\"}")
+  | _ => (w, "{\"error\":\"empty\"}")
+
+partial def loop (h : IO.FS.Stream) (out : IO.FS.Stream) (w : World) : IO Unit := do
+  let line ← h.getLine
+  if line.isEmpty then return ()
+  let l := line.trimAscii.toString
+  if l.isEmpty then
+    loop h out w
+  else
+    let (w', r) := handle w l
+    out.putStrLn r
+    out.flush
+    loop h out w'
 
 def run : IO UInt32 := do
-  IO.eprintln "driver component Transport: not implemented"
-  return 3
+  loop (← IO.getStdin) (← IO.getStdout) []
+  return 0
 
 end Driver.Transport
